@@ -1,5 +1,6 @@
 import SqlgrepModel.Lemmas.AggSummaryTable
 import SqlgrepModel.Lemmas.AggPermSafe
+import SqlgrepModel.Lemmas.RealSums
 /-
 C15 — order-insensitive aggregates ignore line order and how the input is split.
 
@@ -20,23 +21,21 @@ The hypotheses the property grants are stated, never hidden:
     overflow and another not). For REAL addends: `RealAddLaws` (`Lemmas/AggPerm.lean`) — the model's `F64.add` satisfies
     `0.0 + y = y` and `x + y = y + x` on the addends and `(A + B) + C = A + (B + C)` on the partial sums of sub-multisets
     of the addends. That the REAL sum does not depend on the order, and that the sums of two parts add up to the sum of
-    the whole, is PROVED from these laws (`real_sum_order_free_partial`, `concat_sum_adds_real_partial`);
+    the whole, is PROVED from these laws; and the laws are PROVED (`Lemmas/RealSums.lean` `realAddLaws_of_exactSums`) for
+    addends whose sums are exactly representable — `ExactSums rs`, decidable: every addend is a finite REAL other than
+    `-0.0` and the exact sum of every sub-multiset of the addends is a REAL (`real_sum_order_free`, `concat_sum_adds_real`);
   * `ValuesExact` for MIN/MAX/PERCENTILE: equal in the value order ⇒ identical (no `0.0` next to `-0.0`; the harness
     excludes them too), since of equal extremes the first is shown;
   * group keys exact (implied by the specification answering: it declines array keys, `-0.0` and non-canonical NaN keys).
 
-**What is partial, and why.** `F64.add` is executed with Lean's `Float`, which the kernel treats as opaque: no equation
-between two different applications of `F64.add` to concrete REALs can be proved (not even `0.0 + 1.0 = 1.0`), and
-`native_decide` is forbidden. So `RealAddLaws rs` cannot be discharged for ANY concrete list with a REAL in it: for REAL
-SUM / AVG / STDDEV / VARIANCE the theorems below rest on `RealAddLaws` as an ASSUMPTION ABOUT IEEE-754 ADDITION (it holds
-for round-to-nearest addition whenever every sum of a sub-multiset of the addends is exactly representable and no addend
-is `-0.0` or NaN — e.g. integers of small magnitude stored as REAL; this is not proved here). The theorems that are only
-about REAL sums carry `_partial` in their names. Everything else — all aggregates over INT, INTERVAL, TEXT, BOOLEAN,
-TIMESTAMP arguments, COUNT, MIN/MAX/PERCENTILE over REAL — has no such assumption: the REAL clauses of `SumsOrderFree` are
-then about the empty list of addends and hold (`realAddLaws_nil`); `permSafe_of_small_ints` and the examples at the end
-discharge every hypothesis on concrete inputs. The laws themselves are consistent and the derivation is not vacuous: they
-are proved generically in the addition and instantiated below with exact addition. The implementation's behaviour on
-REAL sums is covered by the sampled check (`./check C15`: REAL columns, permutations and splits on the real binary).
+**Nothing is partial any more.** Until `Model/FloatArith.lean` `F64.add` was Lean's opaque hardware `Float`: no equation
+about a REAL sum could be proved and `RealAddLaws` was an assumption about IEEE-754 addition. `F64.add` is now exact integer
+arithmetic on the bit pattern with correct rounding (compared with the hardware on every case of every run), so IEEE addition's
+"the exact sum is returned when it is a REAL" is a theorem (`F64.addX_exact`), `RealAddLaws` follows from `ExactSums`, and the
+kernel evaluates REAL sums (`decide +kernel`, examples at the end). `ExactSums` is what the property's "sums exactly
+representable" grants; where a partial sum is rounded the order can show in the last bit and the property says nothing.
+The law-based forms (`real_sum_order_free_of_laws`, `concat_sum_adds_real_of_laws`) are kept: `SumsOrderFree` / `SplitSafe` are
+stated with `RealAddLaws`, which `ExactSums` implies (`sumsOrderFree_real_of_exactSums`).
 -/
 namespace Sqlgrep.Props.C15
 open Sqlgrep Sqlgrep.Value Sqlgrep.Spec.Agg
@@ -126,21 +125,34 @@ theorem concat_sum_adds_int (e : Expr) (v₁ v₂ : List Value) (is₁ is₂ : L
   simp only [aggregate, nonNull_append, h₁, h₂, ← List.map_append]
   rw [sumOf_ints _ hok, intSumValue_append]
 
-/-- **sums add** (REAL) — partial: rests on `RealAddLaws (rs₁ ++ rs₂)`, an assumption about IEEE addition on the addends
-of both parts (see the header). From it: the sum of the whole is the first part's sum plus the second part's sum.
-FULL statement wanted: the same for all REAL addends whose sub-multiset sums are exactly representable; missing: a proof
-of `RealAddLaws` from that, which needs IEEE semantics of the opaque `Float` addition. -/
-theorem concat_sum_adds_real_partial (rs₁ rs₂ : List Nat) (hne : rs₂ ≠ []) (hlaws : RealAddLaws (rs₁ ++ rs₂)) :
+/-- **sums add** (REAL), from the laws of the addition on the addends of both parts -/
+theorem concat_sum_adds_real_of_laws (rs₁ rs₂ : List Nat) (hne : rs₂ ≠ []) (hlaws : RealAddLaws (rs₁ ++ rs₂)) :
     Value.real (realSum (rs₁ ++ rs₂)) = mergeSum (.real (realSum rs₁)) (.real (realSum rs₂)) := by
   simp only [mergeSum]
   rw [realSum_append_of_laws hlaws hne]
 
-/-- **REAL sums ignore the order** — partial: rests on `RealAddLaws rs` (zero neutral and commutativity on the addends,
-associativity on the partial sums at hand). The proof walks through the swaps that generate the permutation; in front
-of two swapped addends stands a partial sum of a sub-multiset, where the laws apply. FULL statement wanted and what is
-missing: as for `concat_sum_adds_real_partial`. -/
-theorem real_sum_order_free_partial {rs l : List Nat} (hlaws : RealAddLaws rs) (hp : l.Perm rs) : realSum l = realSum rs :=
+/-- **sums add** (REAL): when the sums of the addends of both parts are exactly representable (`ExactSums`), the sum of the
+whole is the first part's sum plus the second part's sum -/
+theorem concat_sum_adds_real (rs₁ rs₂ : List Nat) (hne : rs₂ ≠ []) (hex : ExactSums (rs₁ ++ rs₂)) :
+    Value.real (realSum (rs₁ ++ rs₂)) = mergeSum (.real (realSum rs₁)) (.real (realSum rs₂)) :=
+  concat_sum_adds_real_of_laws rs₁ rs₂ hne (realAddLaws_of_exactSums hex)
+
+/-- **REAL sums ignore the order**, from the laws (zero neutral and commutativity on the addends, associativity on the
+partial sums at hand). The proof walks through the swaps that generate the permutation; in front of two swapped addends
+stands a partial sum of a sub-multiset, where the laws apply. -/
+theorem real_sum_order_free_of_laws {rs l : List Nat} (hlaws : RealAddLaws rs) (hp : l.Perm rs) : realSum l = realSum rs :=
   realSum_perm_of_laws hlaws hp
+
+/-- **REAL sums ignore the order**: when the sums of the addends are exactly representable (`ExactSums`: finite addends
+other than `-0.0`, every sub-multiset sum a REAL), every order of adding them up — IEEE-754 addition, each step correctly
+rounded — gives the same REAL, bit for bit -/
+theorem real_sum_order_free {rs l : List Nat} (hex : ExactSums rs) (hp : l.Perm rs) : realSum l = realSum rs :=
+  real_sum_order_free_of_laws (realAddLaws_of_exactSums hex) hp
+
+/-- the REAL clauses of `SumsOrderFree` from `ExactSums` of the addends and of their squares -/
+theorem sumsOrderFree_real_of_exactSums {rs : List Nat} (h : ExactSums rs) (hsq : ExactSums (rs.map (fun x => F64.mul x x))) :
+    RealAddLaws rs ∧ RealAddLaws (rs.map (fun x => F64.mul x x)) :=
+  ⟨realAddLaws_of_exactSums h, realAddLaws_of_exactSums hsq⟩
 
 /-- the derivation itself, for ANY addition obeying the laws on the values at hand (so it can be instantiated) -/
 theorem sum_order_free_of_laws {add : Nat → Nat → Nat} {z0 : Nat} {rs l : List Nat} (hlaws : AddLaws add z0 rs) (hp : l.Perm rs) :
@@ -171,7 +183,7 @@ of the tables over `r₁` and `r₂` — the set of groups is the union (ascendi
 parts combines cell by cell (`mergeCell`: counts and sums add with NULL neutral, minima and maxima combine with NULL
 neutral, key columns stay), a group present in one part keeps its row. Tables are taken with the group key attached
 (`T.map (·.2)` are the tables themselves). `hint` = the SUM arguments are INT (for REAL the property's exactness
-proviso would be needed: see `concat_sum_adds_real_partial`). -/
+proviso would be needed: see `concat_sum_adds_real`). -/
 theorem agg_concat_merge {O : Oracles} {q : AggStmt} (hm : MergeableStmt q) (r₁ r₂ : List Env) {t t₁ t₂ : List (List Value)}
     (h : table O q (r₁ ++ r₂) = some t) (h₁ : table O q r₁ = some t₁) (h₂ : table O q r₂ = some t₂)
     (hint : ∀ k₁ k₂, keyedRows O q r₁ = some k₁ → keyedRows O q r₂ = some k₂ →
@@ -308,14 +320,33 @@ example (v₁ v₂ : List Value) (h₁ : ∀ v ∈ nonNull v₁, ∃ i, v = .int
     SplitExact (nonNull v₁) (nonNull v₂) := splitExact_of_ints h₁ h₂
 
 /-- **the laws are consistent and the derivation is not vacuous**: exact addition obeys `AddLaws` on every list of addends
-(`F64.add` itself cannot be instantiated: it is opaque to the kernel — see the header) -/
+(for `F64.add` see `realAddLaws_of_exactSums` and the REAL examples below) -/
 example (rs : List Nat) : AddLaws (· + ·) 0 rs :=
   ⟨fun y _ => Nat.zero_add y, fun x _ y _ => Nat.add_comm x y, fun _ _ _ _ _ _ => Nat.add_assoc _ _ _⟩
 example : [3, 1, 2].foldl (· + ·) 0 = [1, 2, 3].foldl (· + ·) 0 :=
   sum_order_free_of_laws (add := (· + ·))
     ⟨fun y _ => Nat.zero_add y, fun x _ y _ => Nat.add_comm x y, fun _ _ _ _ _ _ => Nat.add_assoc _ _ _⟩ (by decide)
-/-- the REAL laws hold when there is nothing to add — the only instance the kernel can check for `F64.add` -/
+/-- the REAL laws hold when there is nothing to add -/
 example : RealAddLaws [] := realAddLaws_nil
+
+/-- REAL addends `0.5, 1.5, -2.25, 100.0` (bit patterns): their sums are exactly representable, so every order gives the
+same sum `99.75`, and a split adds up -/
+def exReals : List Nat := [0x3fe0000000000000, 0x3ff8000000000000, 0xc002000000000000, 0x4059000000000000]
+example : ExactSums exReals := by decide +kernel
+example : ExactSums (exReals.map (fun x => F64.mul x x)) := by decide +kernel
+example : realSum exReals = 0x4058f00000000000 := by decide +kernel
+example : realSum [0x4059000000000000, 0xc002000000000000, 0x3ff8000000000000, 0x3fe0000000000000] = 0x4058f00000000000 := by decide +kernel
+example : realSum [0xc002000000000000, 0x4059000000000000, 0x3fe0000000000000, 0x3ff8000000000000] = 0x4058f00000000000 := by decide +kernel
+example (l : List Nat) (hp : l.Perm exReals) : realSum l = 0x4058f00000000000 := by
+  rw [real_sum_order_free (by decide +kernel) hp]; decide +kernel
+example : Value.real (realSum exReals) =
+    mergeSum (.real (realSum [0x3fe0000000000000, 0x3ff8000000000000])) (.real (realSum [0xc002000000000000, 0x4059000000000000])) :=
+  concat_sum_adds_real [0x3fe0000000000000, 0x3ff8000000000000] [0xc002000000000000, 0x4059000000000000] (by decide) (by decide +kernel)
+/-- where a partial sum is rounded the hypothesis fails, and so may the conclusion: `1e16 + 1 + 1` in two orders -/
+example : ¬ ExactSums [0x4341c37937e08000, 0x3ff0000000000000, 0x3ff0000000000000] := by decide +kernel
+example : realSum [0x4341c37937e08000, 0x3ff0000000000000, 0x3ff0000000000000] ≠ realSum [0x3ff0000000000000, 0x3ff0000000000000, 0x4341c37937e08000] := by decide +kernel
+/-- `-0.0` is excluded: `0.0 + -0.0 = 0.0`, so a lone `-0.0` does not sum to itself -/
+example : ¬ ExactSums [0x8000000000000000] := by decide +kernel
 
 /-- `SELECT COUNT(*), SUM(v), MIN(v) FROM t` is a `MergeableStmt`, and the combination of the rows `[2, 4, 1]` and `[1, 5, 5]`
 of two parts is `[3, 9, 1]` -/
